@@ -24,6 +24,7 @@ func AllRules() []*Rule {
 	rs = append(rs, round2Rules()...)
 	rs = append(rs, glueRule())
 	rs = append(rs, round3Rules()...)
+	rs = append(rs, round5Rules()...)
 	return rs
 }
 
@@ -47,7 +48,7 @@ func init() {
 		NotDecided:  "That every failure produces an error value in the first place (e.g. a short read that happens to parse); the rules show that no code path loses an error value that exists.",
 	}
 	Props["C17"] = PropInfo{
-		Explanation: "DONE-1..3 decide, on the SSA of every b-tree iteration level and adapter, that the done flag of an inner iteration is returned as-is or leads straight to a return of true with no intervening call, that adapters return the user callback's answer, and that top-level scans return only the iteration's error; LOCK-1 shows that the unlock is deferred and so covers the early return. STATELESS: the iteration methods leave no state behind (nothing is stored on pages or the handle), so a stopped scan cannot change what the next one does; PAGER/DRV-4: the lock is released when a stopped scan returns.",
+		Explanation: "DONE-1..3 decide, on the SSA of every b-tree iteration level and adapter, that the done flag of an inner iteration is returned as-is or leads straight to a return of true with no intervening call, that adapters return the user callback's answer, and that top-level scans return only the iteration's error; LOCK-1 shows that the unlock is deferred and so covers the early return. STATELESS: the iteration methods leave no state behind (nothing is stored on pages or the handle), so a stopped scan cannot change what the next one does; PAGER/DRV-4: the lock is released when a stopped scan returns. FMT-overflow/FRESH: what was delivered is not rewritten later (payloads are assembled onto the cell's own local part, scanned bytes are copies).",
 		NotDecided:  "That the traversal itself enumerates rows in the right order (C01/C02's traversal rules); nothing else data-dependent is needed.",
 	}
 }
@@ -58,7 +59,7 @@ func init() {
 		NotDecided:  "What a real writer does in each lock state and that proceeding under RESERVED yields the last committed state (true because SQLite does not touch the file before EXCLUSIVE — an assumption about SQLite).",
 	}
 	Props["C08"] = PropInfo{
-		Explanation: "LOCK-3: RLock invalidates; TXN-1: every exported db function revalidates (resolveDirty) before any page read or cache lookup; RD-TABLE: dirty is cleared only after page 1 was re-read and re-parsed and the fresh header installed; TXN-3: the page cache survives only if the change counter was established unchanged, the schema cache only if the cookie was; TXN-5: the mapping must follow the file (violated: known finding). GLUE: OpenFile/newDatabase wire the pager, the <file>-journal name, a dirty handle and a fresh cache; the locking API methods call RLock before Schema. PAGE-RO/FMT-overflow: cached pages are never written; CACHE-2: only pages parsed without error are cached; LOCK-9: opening reads the header only; DRV-10: a prepared statement keeps nothing between executions; HDR-raw: the header bytes are interpreted by parseHeader only.",
+		Explanation: "LOCK-3: RLock invalidates; TXN-1: every exported db function revalidates (resolveDirty) before any page read or cache lookup; RD-TABLE: dirty is cleared only after page 1 was re-read and re-parsed and the fresh header installed; TXN-3: the page cache survives only if the change counter was established unchanged, the schema cache only if the cookie was; TXN-5: the mapping must follow the file (violated: known finding). GLUE: OpenFile/newDatabase wire the pager, the <file>-journal name, a dirty handle and a fresh cache; the locking API methods call RLock before Schema. PAGE-RO/FMT-overflow: cached pages are never written; CACHE-2: only pages parsed without error are cached; LOCK-9: opening reads the header only; DRV-10: a prepared statement keeps nothing between executions; HDR-raw: the header bytes are interpreted by parseHeader only. NARROW: every integer conversion that can change the value (a narrower target, or signed to unsigned) is proven to keep it on every path reaching it, is one of the listed intended ones, or sits in a decoder whose widths the format rules judge. HDR: the change counter and schema cookie come from header offsets 24 and 40; FRESH: a scanned []byte is a copy, so a caller cannot rewrite a cached page.",
 		NotDecided:  "History-dependent aspects: that SQLite bumps the counters as assumed and cache coherence for particular interleavings.",
 	}
 	Props["C09"] = PropInfo{
@@ -66,69 +67,69 @@ func init() {
 		NotDecided:  "The actual crash-point semantics of a dying SQLite writer (a statement about SQLite's write ordering).",
 	}
 	Props["C15"] = PropInfo{
-		Explanation: "HDR: the stream layout of the struct decoded from the header equals fileformat2 §1.3 and, from the accepting paths of parseHeader (path enumeration with literal extraction), the accepted value set of every header field is computed (whole domain for 1- and 2-byte fields) and compared with the spec; fields that do not affect reading must not influence acceptance. RD-TABLE/TXN-1: the header is re-validated at the start of every transaction before any page read; ERR-2: the header error is propagated. HDR-raw: no header field is read outside parseHeader; LOCK-3: every RLock marks the handle for revalidation.",
+		Explanation: "HDR: the stream layout of the struct decoded from the header equals fileformat2 §1.3 and, from the accepting paths of parseHeader (path enumeration with literal extraction), the accepted value set of every header field is computed (whole domain for 1- and 2-byte fields) and compared with the spec; fields that do not affect reading must not influence acceptance. RD-TABLE/TXN-1: the header is re-validated at the start of every transaction before any page read; ERR-2: the header error is propagated. HDR-raw: no header field is read outside parseHeader; LOCK-3: every RLock marks the handle for revalidation. NARROW: every integer conversion that can change the value (a narrower target, or signed to unsigned) is proven to keep it on every path reaching it, is one of the listed intended ones, or sits in a decoder whose widths the format rules judge.",
 		NotDecided:  "Real WAL/UTF-16 files beyond their header bytes (only the header matters to sqlittle).",
 	}
 }
 
 func init() {
 	Props["C19"] = PropInfo{
-		Explanation: "DRV-1..7 decide the producer/consumer protocol of the database/sql driver on SSA: rows are sent only under a blocking select with the cancellable context's Done(), the channel is closed once by the producer's defer after the error was published, Close cancels then waits then reads the error, Next surfaces the stored error or io.EOF and copies positionally, no cancel function is lost, and the driver reads only through sqlittle.DB.SelectDone/Columns with the table and the expanded columns unchanged (LOCK-2, GLOB-3). ERR rules cover error propagation inside the driver. DRV-8: every iteration of Next's copy loop stores row[i] into dest[i] (database/sql reuses dest); DRV-9: each statement owns a handle opened by its own Prepare and closes it; LOCK-1/LOCK-8: the file lock is released on every return of the locking API; GLUE: SelectDone/Columns route table, callback and columns unchanged to the scan.",
+		Explanation: "DRV-1..7 decide the producer/consumer protocol of the database/sql driver on SSA: rows are sent only under a blocking select with the cancellable context's Done(), the channel is closed once by the producer's defer after the error was published, Close cancels then waits then reads the error, Next surfaces the stored error or io.EOF and copies positionally, no cancel function is lost, and the driver reads only through sqlittle.DB.SelectDone/Columns with the table and the expanded columns unchanged (LOCK-2, GLOB-3). ERR rules cover error propagation inside the driver. DRV-8: every iteration of Next's copy loop stores row[i] into dest[i] (database/sql reuses dest); DRV-9: each statement owns a handle opened by its own Prepare and closes it; LOCK-1/LOCK-8: the file lock is released on every return of the locking API; GLUE: SelectDone/Columns route table, callback and columns unchanged to the scan. DRV-3 also: Add/Done/Wait use the Rows' own WaitGroup and no sync value is copied; DRV-7 also: the expanded column list owns its memory; PAGER: what Close releases is the lock RLock took.",
 		NotDecided:  "Schedules: that database/sql calls Close, goroutine counts at run time, the second lock window between Columns and SelectDone.",
 	}
 	Props["C20"] = PropInfo{
-		Explanation: "GLOB-1: no package-level variable of the four packages is written after initialisation (stores, element/field stores, map updates, appends, escapes of mutable references, followed through module callees); GLOB-2: no handle type is reachable from a package-level variable's type; GLOB-3: the only goroutine is the driver's producer, whose sharing is ordered by DRV-3/4/5; GLOB-4: per-handle state is written only through the method receiver. DRV-9: statements never share a handle (each Prepare opens its own), so concurrently running producers of one connection work on separate handles.",
+		Explanation: "GLOB-1: no package-level variable of the four packages is written after initialisation (stores, element/field stores, map updates, appends, escapes of mutable references, followed through module callees); GLOB-2: no handle type is reachable from a package-level variable's type; GLOB-3: the only goroutine is the driver's producer, whose sharing is ordered by DRV-3/4/5; GLOB-4: per-handle state is written only through the method receiver. DRV-9: statements never share a handle (each Prepare opens its own), so concurrently running producers of one connection work on separate handles. GLOB-1 also: a variable captured by a function literal that package initialisation keeps (the collation functions) is never written; DRV-3: no value holding a sync primitive is copied.",
 		NotDecided:  "Races inside the standard library or mmap; a user sharing one handle; the exported mutable globals being changed by the user at run time.",
 	}
 }
 
 func init() {
 	Props["C11"] = PropInfo{
-		Explanation: "CMP-matrix evaluates compare() by path enumeration under each of the 25 storage-class pairs (a finite abstraction: the operands are touched only through type tests) and checks the 20 cross-class constants and the 5 delegations incl. operand order; CMP-3way checks the sign tables of the three-way helpers over Order(a,b), that operands are used only in comparisons, and the exact int/real scheme (integer compared as integer, guarded truncation, fraction decided by a float comparison); CMP-search extracts the outcome table of one generic loop iteration of Search and Equals over (record shorter, sign of compare, Desc) with the per-column collation; COLL checks the three registered collations against SQLite's definitions.",
+		Explanation: "CMP-matrix evaluates compare() by path enumeration under each of the 25 storage-class pairs (a finite abstraction: the operands are touched only through type tests) and checks the 20 cross-class constants and the 5 delegations incl. operand order; CMP-3way checks the sign tables of the three-way helpers over Order(a,b), that operands are used only in comparisons, and the exact int/real scheme (integer compared as integer, guarded truncation, fraction decided by a float comparison); CMP-search extracts the outcome table of one generic loop iteration of Search and Equals over (record shorter, sign of compare, Desc) with the per-column collation; COLL checks the three registered collations against SQLite's definitions. NARROW: every integer conversion that can change the value (a narrower target, or signed to unsigned) is proven to keep it on every path reaching it, is one of the listed intended ones, or sits in a decoder whose widths the format rules judge.",
 		NotDecided:  "NaN (never stored by SQLite), invalid UTF-8 under NOCASE, and that the relation is a total preorder for all concrete values (follows from the tables for the abstracted classes only).",
 	}
 }
 
 func init() {
 	Props["C14"] = PropInfo{
-		Explanation: "REC-table evaluates one generic iteration of parseRecord under each serial type 0..13 (path enumeration with the type assumed) and checks guard = bytes decoded = body advance = fileformat2 §2.1 and the sign-extension width; SIGN checks the 24/48-bit readers' shifts, mask and subtrahend; VARINT extracts the loop-body table of readVarint (7 bits for bytes 1..8, 8 bits for the 9th, precedence of the 9th-byte test, count, short input); FMT-spill compares the X/M/K formulas and the three-way choice with the spec after SSA removed naming (canonical expression trees); FMT-overflow checks the overflow page layout and that whole pages are appended.",
+		Explanation: "REC-table evaluates one generic iteration of parseRecord under each serial type 0..13 (path enumeration with the type assumed) and checks guard = bytes decoded = body advance = fileformat2 §2.1 and the sign-extension width; SIGN checks the 24/48-bit readers' shifts, mask and subtrahend; VARINT extracts the loop-body table of readVarint (7 bits for bytes 1..8, 8 bits for the 9th, precedence of the 9th-byte test, count, short input); FMT-spill compares the X/M/K formulas and the three-way choice with the spec after SSA removed naming (canonical expression trees); FMT-overflow checks the overflow page layout and that whole pages are appended. NARROW: every integer conversion that can change the value (a narrower target, or signed to unsigned) is proven to keep it on every path reaching it, is one of the listed intended ones, or sits in a decoder whose widths the format rules judge.",
 		NotDecided:  "That multi-page chains concatenate correctly for concrete files, and the numeric value of each decode beyond width/sign structure. For serial types ≥ 12 the length expression is evaluated for sampled N (12, 13, 14, 15, 112, 113, 65548, 65549, 2^32, 2^32+1) and compared with (N−12)/2 resp. (N−13)/2; agreement for every N is not proven.",
 	}
 }
 
 func init() {
 	Props["C04"] = PropInfo{
-		Explanation: "SRCH: the predicates handed to sort.Search in the table leaf and interior pages, evaluated over Order(cell key, rowid), give (F,T,T) on the right field (first cell with key ≥ rowid — the file format's meaning of an interior key), the match test gives (F,T,F) and always stops; TRAV: the interior descent continues with the following children and the right-most child, the leaf delivers only the first qualifying cell; VARINT: rowid varints incl. the 9-byte negative form; DONE/ERR rules via their own ids. GLUE: the wiring functions between the public API and the b-tree (which table/index name is looked up and how, which column map, rowid and callback reach toRow and the scan, how the key is converted) route exactly the confirmed values on every error-free path. ROOT: the lookup starts at the page opened from the table's own root, never at a page remembered from another lookup; SRCH: `no row` is never answered without searching.",
+		Explanation: "SRCH: the predicates handed to sort.Search in the table leaf and interior pages, evaluated over Order(cell key, rowid), give (F,T,T) on the right field (first cell with key ≥ rowid — the file format's meaning of an interior key), the match test gives (F,T,F) and always stops; TRAV: the interior descent continues with the following children and the right-most child, the leaf delivers only the first qualifying cell; VARINT: rowid varints incl. the 9-byte negative form; DONE/ERR rules via their own ids. GLUE: the wiring functions between the public API and the b-tree (which table/index name is looked up and how, which column map, rowid and callback reach toRow and the scan, how the key is converted) route exactly the confirmed values on every error-free path. ROOT: the lookup starts at the page opened from the table's own root, never at a page remembered from another lookup; SRCH: `no row` is never answered without searching. NARROW: every integer conversion that can change the value (a narrower target, or signed to unsigned) is proven to keep it on every path reaching it, is one of the listed intended ones, or sits in a decoder whose widths the format rules judge.",
 		NotDecided:  "That interior keys on disk are ordered (a property of the input) and concrete lookups on real trees.",
 	}
 	Props["C13"] = PropInfo{
-		Explanation: "TRAV/TRAV-flag: shape of indexLeaf.IterMin and indexInterior.IterMin (search, then tail iteration; child before the cell's own entry; first child searched, later children and the right-most scanned); SRCH: the binary-search predicate is Search(key, record of that cell), key first, with the probe error latched; CMP-search/CMP-matrix: the comparison tables; RANGE: the cut-off tables of ScanEq/ScanRange/ScanMin. ROOT: range scans start at the index's own root.",
+		Explanation: "TRAV/TRAV-flag: shape of indexLeaf.IterMin and indexInterior.IterMin (search, then tail iteration; child before the cell's own entry; first child searched, later children and the right-most scanned); SRCH: the binary-search predicate is Search(key, record of that cell), key first, with the probe error latched; CMP-search/CMP-matrix: the comparison tables; RANGE: the cut-off tables of ScanEq/ScanRange/ScanMin. ROOT: range scans start at the index's own root. NARROW: every integer conversion that can change the value (a narrower target, or signed to unsigned) is proven to keep it on every path reaching it, is one of the listed intended ones, or sits in a decoder whose widths the format rules judge.",
 		NotDecided:  "That the search lands on the right cell in real trees.",
 	}
 }
 
 func init() {
 	Props["C01"] = PropInfo{
-		Explanation: "TRAV: the table b-tree iteration methods consume every cell's child in order, then the right-most child, and leaves emit every cell; FMT-spill/FMT-overflow/REC-table: payload split, overflow layout and record decoding agree with the file format; ROWMAP: toRow's three cases (rowid / DEFAULT for short records / record[rowIndex]) and the rowid-alias decision of toColumnIndexRowid; ROWIDALIAS: which column aliases the rowid; ERR-1/2: a definition that cannot be interpreted surfaces as an error before any scan. GLUE: the wiring functions between the public API and the b-tree (which table/index name is looked up and how, which column map, rowid and callback reach toRow and the scan, how the key is converted) route exactly the confirmed values on every error-free path.",
+		Explanation: "TRAV: the table b-tree iteration methods consume every cell's child in order, then the right-most child, and leaves emit every cell; FMT-spill/FMT-overflow/REC-table: payload split, overflow layout and record decoding agree with the file format; ROWMAP: toRow's three cases (rowid / DEFAULT for short records / record[rowIndex]) and the rowid-alias decision of toColumnIndexRowid; ROWIDALIAS: which column aliases the rowid; ERR-1/2: a definition that cannot be interpreted surfaces as an error before any scan. GLUE: the wiring functions between the public API and the b-tree (which table/index name is looked up and how, which column map, rowid and callback reach toRow and the scan, how the key is converted) route exactly the confirmed values on every error-free path. NARROW: every integer conversion that can change the value (a narrower target, or signed to unsigned) is proven to keep it on every path reaching it, is one of the listed intended ones, or sits in a decoder whose widths the format rules judge. TYPENAME: a declared type with arguments must reach the schema whole (known finding: `INTEGER(n) PRIMARY KEY` is read as a rowid alias, so such a column shows the rowid instead of its values).",
 		NotDecided:  "That decoded values, storage classes and order equal SQLite's on real files; the WITHOUT ROWID column store order (a permutation computed from names).",
 	}
 	Props["C02"] = PropInfo{
-		Explanation: "TRAV/TRAV-flag: index b-tree traversals emit left child, then the interior entry, then the right-most child, every cell; SKIP-1/SKIP-2/ERR: every index entry reaches the row callback or an error, never a stale or skipped row; CHOMP: the rowid is the last index field and the adapters look up and deliver the table row, WITHOUT ROWID lookups typed by the table's PK; IDXCOL: per-column collations; FMT-spill for index cells. GLUE: the wiring functions between the public API and the b-tree (which table/index name is looked up and how, which column map, rowid and callback reach toRow and the scan, how the key is converted) route exactly the confirmed values on every error-free path.",
+		Explanation: "TRAV/TRAV-flag: index b-tree traversals emit left child, then the interior entry, then the right-most child, every cell; SKIP-1/SKIP-2/ERR: every index entry reaches the row callback or an error, never a stale or skipped row; CHOMP: the rowid is the last index field and the adapters look up and deliver the table row, WITHOUT ROWID lookups typed by the table's PK; IDXCOL: per-column collations; FMT-spill for index cells. GLUE: the wiring functions between the public API and the b-tree (which table/index name is looked up and how, which column map, rowid and callback reach toRow and the scan, how the key is converted) route exactly the confirmed values on every error-free path. NARROW: every integer conversion that can change the value (a narrower target, or signed to unsigned) is proven to keep it on every path reaching it, is one of the listed intended ones, or sits in a decoder whose widths the format rules judge.",
 		NotDecided:  "Partial-index membership, expression columns, tie order, collation order on real data (C11's tables cover the comparator).",
 	}
 	Props["C03"] = PropInfo{
-		Explanation: "KEY: asDbKey carries index column i's direction and validated collation to key column i and maps every documented Go type to a storage type; RANGE: ScanEq searches and filters with the same key and stops at the first unequal record; PKSEL: the primary-key dispatch table; IDXCOL: collation of index columns; CMP-matrix/CMP-search: the comparison tables; SRCH/TRAV/DONE-0: the binary search and the descent it starts. GLUE: the wiring functions between the public API and the b-tree (which table/index name is looked up and how, which column map, rowid and callback reach toRow and the scan, how the key is converted) route exactly the confirmed values on every error-free path.",
+		Explanation: "KEY: asDbKey carries index column i's direction and validated collation to key column i and maps every documented Go type to a storage type; RANGE: ScanEq searches and filters with the same key and stops at the first unequal record; PKSEL: the primary-key dispatch table; IDXCOL: collation of index columns; CMP-matrix/CMP-search: the comparison tables; SRCH/TRAV/DONE-0: the binary search and the descent it starts. GLUE: the wiring functions between the public API and the b-tree (which table/index name is looked up and how, which column map, rowid and callback reach toRow and the scan, how the key is converted) route exactly the confirmed values on every error-free path. NARROW: every integer conversion that can change the value (a narrower target, or signed to unsigned) is proven to keep it on every path reaching it, is one of the listed intended ones, or sits in a decoder whose widths the format rules judge.",
 		NotDecided:  "That the binary search finds the first equal entry on real trees; PK/index resolution against SQLite's catalogue (C10).",
 	}
 	Props["C10"] = PropInfo{
-		Explanation: "GRAM: every grammar value the parser reports is defined by the element's own production; ROWIDALIAS: the rowid-alias decision table and its call sites; IDXCOL: collation inheritance with a case-insensitive column lookup; SCHEMA-err via ERR-1/2 exceptions (unparseable table ⇒ error, unparseable index ⇒ omitted); AUTOIDX: the automatic-index counter advances only when an index was added (rowid tables). NEWCT: column-level PRIMARY KEY/UNIQUE become keys on that column with its collation and direction; IDENT-VERBATIM: the parser never rewrites the case of a name; TOK-ADV: the tokenizer advances by exactly the token it read.",
+		Explanation: "GRAM: every grammar value the parser reports is defined by the element's own production; ROWIDALIAS: the rowid-alias decision table and its call sites; IDXCOL: collation inheritance with a case-insensitive column lookup; SCHEMA-err via ERR-1/2 exceptions (unparseable table ⇒ error, unparseable index ⇒ omitted); AUTOIDX: the automatic-index counter advances only when an index was added (rowid tables). NEWCT: column-level PRIMARY KEY/UNIQUE become keys on that column with its collation and direction; IDENT-VERBATIM: the parser never rewrites the case of a name; TOK-ADV: the tokenizer advances by exactly the token it read. ADDINDEX same-key: two UNIQUE/PRIMARY KEY constraints are one key iff same columns (any spelling) and collations, whatever the direction, and a WITHOUT ROWID key that takes over an earlier index keeps that index's columns and consumes no automatic-index number (AUTOIDX); TYPENAME: a declared type with arguments must reach the schema whole (known finding: INTEGER(n) PRIMARY KEY is read as a rowid alias).",
 		NotDecided:  "Automatic-index de-duplication and appended key columns beyond the counter discipline — SQLite catalogue rules implemented as name arithmetic.",
 	}
 }
 
 func init() {
 	Props["C05"] = PropInfo{
-		Explanation: "PANIC: every index, slice, division, make, byte-order read, non-comma-ok assertion and explicit panic in the API-reachable functions (goyacc skeleton excepted) is discharged on every path reaching it (path enumeration with loop generations) by a difference-constraint prover fed with the path's branch literals, definitions, checked callee contracts, preconditions proven at every call site and field invariants proven at every store; NIL: results of functions that may return nil are dereferenced only under a non-nil test or after a validating loop; TERM-1: every call-graph cycle spends recursion budget; TERM-2: every loop is a range, progress, shrink or bounded-growth loop; CONTRACT: the contracts themselves; GRAM-0: parser value-stack indices. CACHE-2: a page that failed to parse (a typed nil pointer) never enters the cache; ERR-5.",
+		Explanation: "PANIC: every index, slice, division, make, byte-order read, non-comma-ok assertion and explicit panic in the API-reachable functions (goyacc skeleton excepted) is discharged on every path reaching it (path enumeration with loop generations) by a difference-constraint prover fed with the path's branch literals, definitions, checked callee contracts, preconditions proven at every call site and field invariants proven at every store; NIL: results of functions that may return nil are dereferenced only under a non-nil test or after a validating loop; TERM-1: every call-graph cycle spends recursion budget; TERM-2: every loop is a range, progress, shrink or bounded-growth loop; CONTRACT: the contracts themselves; GRAM-0: parser value-stack indices. CACHE-2: a page that failed to parse (a typed nil pointer) never enters the cache; ERR-5. NARROW: every integer conversion that can change the value (a narrower target, or signed to unsigned) is proven to keep it on every path reaching it, is one of the listed intended ones, or sits in a decoder whose widths the format rules judge. KEY: a collation name reaches the comparison only after it was found in CollateFuncs under the very name stored (an unknown name would call a nil function).",
 		NotDecided:  "The magnitude of bounds (a self-referencing interior page is re-traversed exponentially often before the budget runs out; a 2 GiB declared payload is `bounded`), stack depth of readQuoted on megabytes of doubled quotes, memory use of the page cache; mutation of a field by a callee between a length test and its use is not tracked (no such pattern on the tree).",
 	}
 	Props["C16"] = PropInfo{
@@ -136,7 +137,7 @@ func init() {
 		NotDecided:  "That accepted statements are SQLite's language; the multi-byte bareword advance in tokenize (wrong tokens or an error, never a panic).",
 	}
 	Props["C18"] = PropInfo{
-		Explanation: "FRESH: every []byte stored through a *[]byte destination or returned by a scan helper has only fresh origins (make, string conversion, append onto nil/fresh), the file pager returns fresh buffers; SCANPURE: scanning never stores into the row; PANIC/CONTRACT: every row index is guarded, type-switch defaults are dead given the producers (REC-table, ROWMAP); CONV: the constants of the documented conversions (base 10, 64 bit, 'g'/-1, the two time layouts, unix seconds) and zero values for NULL/missing columns. CONV-exact: integer text goes through the exact ParseInt first; ROWMAP: a stored NULL is not replaced by the column default.",
+		Explanation: "FRESH: every []byte stored through a *[]byte destination or returned by a scan helper has only fresh origins (make, string conversion, append onto nil/fresh), the file pager returns fresh buffers; SCANPURE: scanning never stores into the row; PANIC/CONTRACT: every row index is guarded, type-switch defaults are dead given the producers (REC-table, ROWMAP); CONV: the constants of the documented conversions (base 10, 64 bit, 'g'/-1, the two time layouts, unix seconds) and zero values for NULL/missing columns. CONV-exact: integer text goes through the exact ParseInt first; ROWMAP: a stored NULL is not replaced by the column default. NARROW: every integer conversion that can change the value (a narrower target, or signed to unsigned) is proven to keep it on every path reaching it, is one of the listed intended ones, or sits in a decoder whose widths the format rules judge.",
 		NotDecided:  "The numerical content of strconv/time conversions and float→int edge cases.",
 	}
 }
